@@ -21,12 +21,21 @@ Two ways of sending a request (``mode``):
 History format (plain Python strings; the check converts to the
 character-sequence form of spec/SiteRouting.tla):
 
-  {"W": {"root": id, "sites": [id..], "leaves": [id..],
-         "attrs": {rid: {"hidden": bool, "pairs": [[k, v]..]}}},
+  {"W": {"root": id, "sites": [id..], "leaves": [id..], "wrapped": [id..],
+         "attrs": {rid: {"hidden": bool, "bare": bool, "pairs": [[k, v]..]}}},
    "ops": [{"op": "add"|"addsite"|"remove"|"request"|"discover", "site": id,
             "path": [seg..], "id": id, "query": str, "key": str, "val": str,
-            "star": bool}..],
+            "star": bool, "method": "GET".., "con": bool, "host": str,
+            "port": int}..],
    "mode": "ctx"|"direct"}
+
+Test doubles: `Rec` (resource.Resource with link description), `Bare` (a plain
+interfaces.Resource without get_link_description: not hidden, listed without
+attributes), `Leaf` (PathCapable catch-all that sees the remainder), `Wrapped`
+(PathCapable wrapper that is *not* a Site around a Site listed in
+W["wrapped"]: for routing and listing it is that site).  A request op carries
+its method (all handlers answer every method with an explicit 2.05), CON/NON
+and optional Uri-Host / Uri-Port.
 """
 
 import json
@@ -110,8 +119,17 @@ def _test_classes():
     if _classes:
         return _classes
     require_repo()
-    from aiocoap import resource, Message
+    from aiocoap import resource, interfaces, Message
+    from aiocoap.numbers.codes import Code
     from aiocoap.util.linkformat import LinkFormat
+
+    def answer(rid, request):
+        try:
+            uri = request.get_request_uri()
+        except Exception as e:  # reported to the judge, which owns the verdict
+            uri = "!exception %r" % (e,)
+        body = {"id": rid, "seen": list(request.opt.uri_path), "uri": uri}
+        return Message(code=Code.CONTENT, payload=json.dumps(body).encode())
 
     class Rec(resource.Resource):
         """Says who it is, which Uri-Path it was handed and which request URI
@@ -129,12 +147,44 @@ def _test_classes():
             return dict(self.pairs)
 
         async def render_get(self, request):
-            try:
-                uri = request.get_request_uri()
-            except Exception as e:  # reported to the judge, which owns the verdict
-                uri = "!exception %r" % (e,)
-            body = {"id": self.rid, "seen": list(request.opt.uri_path), "uri": uri}
-            return Message(payload=json.dumps(body).encode())
+            return answer(self.rid, request)
+
+        render_post = render_put = render_delete = render_fetch = render_get
+
+    class Bare(interfaces.Resource):
+        """Implements the documented resource interface directly; has no
+        get_link_description (so it does not hide itself)."""
+
+        def __init__(self, rid):
+            self.rid = rid
+
+        async def needs_blockwise_assembly(self, request):
+            return False
+
+        async def render(self, request):
+            return answer(self.rid, request)
+
+        async def render_to_pipe(self, pipe):
+            pipe.add_response(await self.render(pipe.request), is_last=True)
+
+    class Wrapped(interfaces.Resource, resource.PathCapable):
+        """What a logging / access-control wrapper around a nested site looks
+        like: PathCapable, not a Site, forwards everything."""
+
+        def __init__(self, inner):
+            self.inner = inner
+
+        async def needs_blockwise_assembly(self, request):
+            return await self.inner.needs_blockwise_assembly(request)
+
+        async def render(self, request):
+            return await self.inner.render(request)
+
+        async def render_to_pipe(self, pipe):
+            return await self.inner.render_to_pipe(pipe)
+
+        def get_resources_as_linkheader(self):
+            return self.inner.get_resources_as_linkheader()
 
     class Leaf(Rec, resource.PathCapable):
         """A PathCapable handler registered like a nested site: receives the
@@ -146,7 +196,7 @@ def _test_classes():
         def get_resources_as_linkheader(self):
             return LinkFormat([])
 
-    _classes.update(Rec=Rec, Leaf=Leaf, resource=resource, Message=Message)
+    _classes.update(Rec=Rec, Leaf=Leaf, Bare=Bare, Wrapped=Wrapped, resource=resource, Message=Message)
     return _classes
 
 
@@ -169,8 +219,12 @@ async def _run(w, hist):
     sites = {s: resource.Site() for s in W["sites"]}
     leaves = {l: c["Leaf"](l) for l in W["leaves"]}
     res = {
-        r: c["Rec"](r, a["hidden"], a["pairs"]) for r, a in W["attrs"].items() if r != "wkc"
+        r: (c["Bare"](r) if a.get("bare") else c["Rec"](r, a["hidden"], a["pairs"]))
+        for r, a in W["attrs"].items()
+        if r != "wkc"
     }
+    # what is registered when site s is nested somewhere
+    nested = {s: (c["Wrapped"](sites[s]) if s in W.get("wrapped", ()) else sites[s]) for s in sites}
     root = sites[W["root"]]
     root.add_resource(list(WKC_PATH), resource.WKCResource(root.get_resources_as_linkheader))
 
@@ -191,16 +245,22 @@ async def _run(w, hist):
 
         w.net.on_sent = on_sent
 
-    async def exchange(path, queries, block=None):
+    METHODS = {"GET": wire.GET, "POST": wire.POST, "PUT": wire.PUT, "DELETE": wire.DELETE, "FETCH": wire.FETCH}
+
+    async def exchange(path, queries, block=None, method="GET", con=False, host="", port=0):
         """-> (code, payload bytes, block2 option or None)"""
         state["mid"] = (state["mid"] + 1) & 0xFFFF
         mid = state["mid"]
         tok = mid.to_bytes(2, "big")
         opts = [(wire.URI_PATH, seg.encode()) for seg in path]
         opts += [(wire.URI_QUERY, q.encode()) for q in queries]
+        if host:
+            opts.append((wire.URI_HOST, host.encode()))
+        if port:
+            opts.append((wire.URI_PORT, wire.uint(port)))
         if block is not None:
             opts.append((wire.BLOCK2, wire.block(block[0], False, block[1])))
-        raw = wire.encode(wire.NON, wire.GET, mid, tok, opts)
+        raw = wire.encode(wire.CON if con else wire.NON, METHODS[method], mid, tok, opts)
         if mode == "ctx":
             w.net.inject(sock, raw, sockaddr(1))
             await w.loop.settle()
@@ -218,9 +278,9 @@ async def _run(w, hist):
             r = e.to_message()
         return int(r.code), bytes(r.payload), None
 
-    async def fetch(path, queries):
+    async def fetch(path, queries, **how):
         """Whole representation (follows Block2)."""
-        code, payload, b2 = await exchange(path, queries)
+        code, payload, b2 = await exchange(path, queries, **how)
         guard = 0
         while b2 is not None and b2[1] and code == wire.CONTENT and guard < 64:
             guard += 1
@@ -248,14 +308,21 @@ async def _run(w, hist):
                 sites[o["site"]].add_resource(tuple(o["path"]), res[o["id"]])
                 obs.append({"kind": "ok"})
             elif op == "addsite":
-                child = sites.get(o["id"]) or leaves[o["id"]]
+                child = nested[o["id"]] if o["id"] in nested else leaves[o["id"]]
                 sites[o["site"]].add_resource(tuple(o["path"]), child)
                 obs.append({"kind": "ok"})
             elif op == "remove":
                 sites[o["site"]].remove_resource(tuple(o["path"]))
                 obs.append({"kind": "ok"})
             elif op == "request":
-                code, payload = await fetch(o["path"], [o["query"]] if o["query"] else [])
+                code, payload = await fetch(
+                    o["path"],
+                    [o["query"]] if o["query"] else [],
+                    method=o.get("method", "GET"),
+                    con=bool(o.get("con")),
+                    host=o.get("host", ""),
+                    port=int(o.get("port", 0)),
+                )
                 if code == wire.CONTENT:
                     try:
                         body = json.loads(payload.decode("utf8"))
